@@ -946,7 +946,7 @@ class Interp:
 
         def desc(op):
             s, l, h, p = self.read_op(st, op, at)
-            return {"expr": self.body.op_str(op), "iv": [l, h], "prov": sorted(p) if p else []}
+            return {"expr": self.body.op_str(op), "cexpr": self.body.canon_op(op), "iv": [l, h], "prov": sorted(p) if p else []}
         if kind == "Overflow":
             detail = {"op": msg["op"], "a": desc(msg["a"]), "b": desc(msg["b"])}
             if msg["op"] == "Sub" and not ok:
@@ -1068,7 +1068,7 @@ class Interp:
             return None
         ok = False
         how = ""
-        detail = {"callee": p, "args": [self.body.op_str(a) for a in args][:3]}
+        detail = {"callee": p, "args": [self.body.op_str(a) for a in args][:3], "cargs": [self.body.canon_op(a) for a in args][:3]}
         if kind in ("unwrap_opt", "unwrap_res"):
             want = "Some" if kind == "unwrap_opt" else "Ok"
             src = op_place(args[0]) if args else None
@@ -1485,6 +1485,12 @@ class Interp:
             if src is not None:
                 self.copy_cells(st, place_key(src), dest)
             return "pure"
+        if p == "core::iter::traits::iterator::Iterator::rev" and len(args) == 1 and "core::ops::range::Range<" in full and "RangeInclusive" not in full:
+            # Rev<Range>: the same set of items in the opposite order (the cells of the range are kept flat)
+            src = op_place(args[0])
+            if src is not None:
+                self.copy_cells(st, place_key(src), dest)
+            return "pure"
         if p == "core::iter::traits::iterator::Iterator::next" and "core::ops::range::Range<" in full and "RangeInclusive" not in full:
             tgt = self.ref_target(st, args[0])
             if tgt is not None:
@@ -1836,6 +1842,9 @@ TRANSPARENT = {
     "core::iter::traits::iterator::Iterator::zip", "core::iter::traits::iterator::Iterator::cloned",
     "alloc::vec::Vec::iter", "core::convert::Into::into", "core::convert::From::from", "core::clone::Clone::clone",
     "core::convert::AsRef::as_ref", "core::borrow::Borrow::borrow",
+    "core::option::Option::map_or", "core::option::Option::map_or_else", "core::option::Option::unwrap_or_else",
+    "core::iter::traits::iterator::Iterator::fold", "core::iter::traits::iterator::Iterator::copied",
+    "core::cmp::Ord::max", "core::cmp::Ord::min", "core::cmp::max", "core::cmp::min", "core::option::Option::as_deref",
 }
 TRANSPARENT_LAST = {"iter", "as_ref", "as_slice", "as_str", "as_bytes", "deref", "borrow", "values", "keys"}
 
